@@ -101,20 +101,32 @@ func readGpos5_1(p *parser.Parser, subtablePos int64) (Subtable, error) {
 		if err != nil {
 			return nil, err
 		}
-		ligAttach := make([][]anchor.Table, componentCount)
+		// The component records hold componentCount*markClassCount anchor
+		// offsets, relative to the start of the LigatureAttach table.
+		numOffsets := int(componentCount) * markClassCount
+		var anchorOffsets []uint16
+		for k := 0; k < numOffsets; k++ {
+			offs, err := p.ReadUint16()
+			if err != nil {
+				return nil, err
+			}
+			anchorOffsets = append(anchorOffsets, offs)
+		}
 
-		for j := 0; j < int(componentCount); j++ {
+		ligAttach := make([][]anchor.Table, componentCount)
+		for j := range ligAttach {
 			row := make([]anchor.Table, markClassCount)
-			for j := range row {
-				if offsets[j] == 0 {
+			for k := range row {
+				offs := anchorOffsets[j*markClassCount+k]
+				if offs == 0 {
 					continue
 				}
-				row[j], err = anchor.Read(p, ligAttachPos+int64(offsets[j]))
+				row[k], err = anchor.Read(p, ligAttachPos+int64(offs))
 				if err != nil {
 					return nil, err
 				}
 			}
-			ligAttach[i] = row
+			ligAttach[j] = row
 		}
 
 		ligArray[i] = ligAttach
